@@ -727,3 +727,195 @@ def replay_replay(rec) -> int:
     f = judge_replay(rec["scn"], rec["expected"], rec["variant"])
     print(json.dumps(f, default=str)[:3000] if f else "replay: observation allowed by the spec")
     return 1 if f else 0
+
+
+# =============================================================================================
+# Binding C: two calls of a history issued CONCURRENTLY on two threads (DetSched), judged against the
+# sequential histories of Subjects.tla: the outcome must be the one the spec exports for `... A B ...` or for
+# `... B A ...` (each call takes effect at one point between its invocation and its return).
+# Only pairs whose effects the statement orders for every interleaving are driven: a subscribe racing with an
+# emitting call, and (AsyncSubject) an on_next racing with on_completed.  Two racing emitting calls on a plain
+# Subject are NOT driven (their deliveries run outside the lock and may interleave per observer - C43's matter).
+CONC_FOCUS = ("reactivex/subject/subject.py", "reactivex/subject/behaviorsubject.py", "reactivex/subject/asyncsubject.py",
+              "reactivex/subject/innersubscription.py", "reactivex/observer/observer.py")
+CONC_PAIRS = {("sub", "completed"), ("sub", "error"), ("sub", "next"), ("next", "completed")}
+
+
+def _conc_patches():
+    from harness import shims
+    return {"reactivex.subject.subject": {"threading": shims.threading_ns},
+            "reactivex.subject.innersubscription": {"threading": shims.threading_ns},
+            "reactivex.observable.observable": {"threading": shims.threading_ns}}
+
+
+def conc_scenarios(lines, kind, want, seed):
+    """Pairs of exported histories without callback reactions that differ by swapping two adjacent top-level calls
+    (one of CONC_PAIRS): the concurrent scenario and its accepted sequential outcomes.  Codec-level pairing only."""
+    import random
+    plain = {}
+    for ln in lines:
+        scn, obs = ln["scn"], ln["obs"]
+        if obs["amb"] or any(per for per in scn["body"]) or any(at[1] for at in obs["at"]):
+            continue
+        plain[json.dumps(scn["top"])] = ln
+    out = []
+    for key, ln in plain.items():
+        top = ln["scn"]["top"]
+        for i in range(len(top) - 1):
+            a, b = top[i], top[i + 1]
+            if (a["c"], b["c"]) not in CONC_PAIRS:
+                continue
+            if (a["c"], b["c"]) == ("next", "completed") and kind != "async":
+                continue
+            if (a["c"], b["c"]) == ("sub", "next") and kind == "async":
+                continue
+            sw = top[:i] + [b, a] + top[i + 2:]
+            other = plain.get(json.dumps(sw))
+            if other is None:
+                continue
+            nlive = ln["obs"]["steps"][i - 1] if i else []
+            out.append({"scn": ln["scn"], "i": i, "pair": [a["c"], b["c"]], "allowed": [ln["obs"], other["obs"]],
+                        "weight": len(nlive)})
+    rnd = random.Random(seed)
+    rnd.shuffle(out)
+    # prefer scenarios with observers already attached and the subject still live (more to get wrong), one stratum per pair
+    by = {}
+    for s in out:
+        by.setdefault(tuple(s["pair"]), []).append(s)
+    chosen = []
+    per = max(1, want // max(1, len(by)))
+    for pair, ss in sorted(by.items()):
+        ss.sort(key=lambda s: -s["weight"])
+        chosen += ss[:per]
+    return chosen, len(out)
+
+
+def conc_perform(scn, i, variant, choose, max_steps=6000):
+    """prefix sequentially, calls i and i+1 on two logical threads under the schedule `choose`, suffix sequentially"""
+    from harness import fastsched, shims
+    from reactivex.internal import DisposedException
+    from reactivex.subject import AsyncSubject, BehaviorSubject, Subject
+
+    pool = _pool(variant)
+    errs = _errors(variant)
+    kind = scn["kind"]
+    top = scn["top"]
+    state: Dict[str, Any] = {}
+
+    def build(ds):
+        subject = Subject() if kind == "subject" else (BehaviorSubject(pool[0]) if kind == "behavior" else AsyncSubject())
+        logs: Dict[int, List[Any]] = {}
+        subs: Dict[int, Any] = {}
+        res: Dict[int, Any] = {}
+        state.update(subject=subject, logs=logs, subs=subs, res=res)
+
+        def callbacks(o):
+            def on_next(v):
+                logs[o].append(["N", _ident(pool, v)])
+
+            def on_error(e):
+                logs[o].append(["E", DISPOSED_TOK if isinstance(e, DisposedException) else _ident(errs, e)])
+
+            def on_completed():
+                logs[o].append(["C", 0])
+            return on_next, on_error, on_completed
+
+        def do(k):
+            cmd = top[k]
+            c, a = cmd["c"], cmd["a"]
+            out: Any = 0
+            try:
+                if c in ("sub", "subnh"):
+                    logs[a] = []
+                    on_next, on_error, on_completed = callbacks(a)
+                    subs[a] = subject.subscribe(on_next, None if c == "subnh" else on_error, on_completed)
+                    if logs[a] and logs[a][-1] == ["E", DISPOSED_TOK]:
+                        out = 2
+                elif c == "unsub":
+                    subs[a].dispose()
+                elif c == "next":
+                    subject.on_next(pool[a])
+                elif c == "error":
+                    subject.on_error(errs[a])
+                elif c == "completed":
+                    subject.on_completed()
+                elif c == "dispose":
+                    subject.dispose()
+            except DisposedException:
+                out = 1
+            except Exception as e:
+                out = "X:" + type(e).__name__
+            res[k] = out
+        state["do"] = do
+        for k in range(i):
+            do(k)
+        ds.spawn("TA", lambda: do(i))
+        ds.spawn("TB", lambda: do(i + 1))
+
+    ds = fastsched.run_execution(build, choose, CONC_FOCUS, max_steps, reuse_threads=True)
+    hung = ds.deadlocked or ds.step_limit_hit
+    crashed = [repr(t.exc) for t in ds.threads if t.exc is not None]
+    if not hung and not crashed:
+        for k in range(i + 2, len(top)):
+            state["do"](k)
+    logs, res = state["logs"], state["res"]
+    n = max([0] + list(logs))
+    return ds, {"res": [res.get(k) for k in range(len(top))], "logs": [logs.get(o, []) for o in range(1, n + 1)],
+                "hung": hung, "crashed": crashed}
+
+
+def _conc_same(scn, i, got, exp, swapped):
+    """got vs one sequential outcome: result of every call (per call, not per position) and the final logs"""
+    order = list(range(len(scn["top"])))
+    if swapped:
+        order[i], order[i + 1] = i + 1, i
+    exp_res = {k: exp["res"][pos] for pos, k in enumerate(order)}
+    if any(got["res"][k] != exp_res[k] for k in range(len(scn["top"]))):
+        return False
+    n = len(got["logs"])
+    return got["logs"] == exp["logs"][:n] and not any(exp["logs"][n:])
+
+
+def conc_judge(item):
+    """explore the schedules of one concurrent scenario; returns (executions, failure records)"""
+    from harness import fastsched, shims
+    scn, i, allowed, variant, bound, per_level, seed = item
+    fails = []
+    n = 0
+    with shims.patched(extra=_conc_patches(), only=list(_conc_patches())):
+        ex = fastsched.LevelExplorer(bound=bound, per_level=per_level, random_schedules=0, seed=seed)
+        last = {}
+
+        def run_one(choose):
+            ds, got = conc_perform(scn, i, variant, choose)
+            last["got"] = got
+            return ds
+        for ds in ex.explore(run_one):
+            n += 1
+            got = last["got"]
+            ok = not got["hung"] and not got["crashed"] and (
+                _conc_same(scn, i, got, allowed[0], False) or _conc_same(scn, i, got, allowed[1], True))
+            if not ok and len(fails) < 1:
+                exp_kinds = {json.dumps(_terminal_kinds(e["logs"])) for e in allowed}
+                fails.append({"engine": "subjects-conc", "kind": scn["kind"], "variant": variant, "scn": scn, "i": i,
+                              "pair": [scn["top"][i]["c"], scn["top"][i + 1]["c"]],
+                              "expected": [{k: e[k] for k in ("res", "logs")} for e in allowed], "observed": got,
+                              "failure": "hang" if got["hung"] else ("crashed" if got["crashed"] else "not_linearizable"),
+                              "schedule": [d[1] for d in ds.decisions],
+                              "preemptions": sum(1 for d in ds.decisions if d[2] != -1 and d[1] != d[2]),
+                              "terminal_kinds_unexpected": json.dumps(_terminal_kinds(got["logs"])) not in exp_kinds,
+                              "err_profile": variant.get("err", "plain")})
+    return n, fails
+
+
+def conc_replay(rec) -> int:
+    """re-run the recorded schedule of a concurrent failure"""
+    from harness import shims
+    pre = rec["schedule"]
+    with shims.patched(extra=_conc_patches(), only=list(_conc_patches())):
+        from harness import fastsched
+        ds, got = conc_perform(rec["scn"], rec["i"], rec["variant"], fastsched.LevelExplorer._chooser(pre))
+    ok = not got["hung"] and not got["crashed"] and (
+        _conc_same(rec["scn"], rec["i"], got, rec["expected"][0], False) or _conc_same(rec["scn"], rec["i"], got, rec["expected"][1], True))
+    print("replay: " + ("one of the two sequential outcomes" if ok else "NOT a sequential outcome: " + json.dumps(got, default=str)[:1500]))
+    return 0 if ok else 1
